@@ -18,7 +18,7 @@ func init() {
 			"(both the disjunctive and the De Morgan form are recognised, also nested in larger conditions); a read by type that skips this on one path — the cache hit, the loose path, an iterator — hands out an object of another type; " +
 			"(pack-hit-verified) findObjectInPackfile names a pack only behind the success edge of that pack index's FindOffset for the requested hash, so the most-recently-used hint can be stale but cannot misroute; " +
 			"(reader-bounded-by-size) FSObject.Reader hands out either the cached object's reader or a reader wrapped in NewBoundedReadCloser. (may-contain-confirmed) on the edge where an index's MayContain (a first-byte bucket test) answered true only the precise lookup may follow, never the next iteration or a return; " +
-			"(alternates-miss-is-not-found) findInAlternates returns the value its workers collected with a nil error only where the found flag is true (found and fixed: a miss in two or more alternates answered (zero, nil)). Not decided: contents and sizes of what is read, cache coherence, delta resolution.",
+			"(alternates-miss-is-not-found) findInAlternates returns the value its workers collected with a nil error only where the found flag is true (found and fixed: a miss in two or more alternates answered (zero, nil)); (local-miss-reaches-alternates) a function that falls back to the alternates does so for both ways the loose-object directory reports a miss — the filesystem's not-exist error and, with ExclusiveAccess, ErrObjectNotFound from the cached listing (found and fixed: HasEncodedObject returned the latter at once). Not decided: contents and sizes of what is read, cache coherence, delta resolution.",
 		Assumptions: []string{},
 		Run:         runC11,
 	})
@@ -467,6 +467,35 @@ func runC11(c *Ctx) {
 		}
 	}
 	c.Floor(r6, 1)
+
+	// Objects borrowed through objects/info/alternates are part of the object database on every read path: by ID, by
+	// size, existence, prefix search and iteration. Each of these entry points must reach the alternates (the fan-out
+	// helper, or the alternates field) in its static call closure.
+	const r7 = "read-paths-cover-alternates"
+	if stT := p.lookupType("storage/filesystem", "ObjectStorage"); stT != nil {
+		altField := fieldOf(stT, "alternates")
+		for _, name := range []string{"EncodedObject", "EncodedObjectSize", "HasEncodedObject", "HashesWithPrefix", "IterEncodedObjects"} {
+			fi := c.MustFunc(r7, "storage/filesystem.(*ObjectStorage)."+name)
+			if fi == nil {
+				continue
+			}
+			c.Analysed(fi)
+			reaches := false
+			for _, g := range p.staticClosure([]*FuncInfo{fi}) {
+				if g.Decl.Body == nil {
+					continue
+				}
+				if g.Decl.Name.Name == "findInAlternates" || (altField != nil && usesObj(g.Pkg.TypesInfo, g.Decl.Body, altField)) {
+					reaches = true
+					break
+				}
+			}
+			c.Check(reaches, r7, fi.Name(), fi.Decl.Pos(), orStr(ifStr(!reaches, "this read path never consults the alternates: an object that lives only in an alternate is readable by ID but invisible here"), "the alternates are consulted"))
+		}
+	} else {
+		c.Unresolved(r7, "storage/filesystem.ObjectStorage", 0, "type not found")
+	}
+	c.Floor(r7, 5)
 
 	const r3 = "reader-bounded-by-size"
 	if fi := c.MustFunc(r3, "plumbing/format/packfile.(*FSObject).Reader"); fi != nil {
